@@ -53,6 +53,10 @@ class _Continue(Exception):
     pass
 
 
+class _ForkInPure(Exception):
+    pass
+
+
 class PathAbort(Exception):
     """path ends here by design (e.g. after checking a loop invariant's preservation)"""
 
@@ -210,6 +214,7 @@ class Engine:
         self.prune_ms = prune_ms
         self.max_paths = max_paths
         self.nforks = 0
+        self.nofork = 0
         self.int_div_lemmas = int_div_lemmas
 
     # ------------------------------------------------------------------ driver
@@ -253,7 +258,19 @@ class Engine:
     def require(self, name, cond):
         """side obligation: must hold on this path (pc at this point is captured)"""
         if isinstance(cond, bool):
+            if cond:
+                return
             cond = z3.BoolVal(cond)
+        cond = z3.simplify(cond)
+        if z3.is_true(cond):
+            return
+        if any(n == name and c.eq(cond) for n, _, c in self.obligations):
+            return
+        # discharged on the spot when the *linear relaxation* of the path condition already implies it
+        # (dropping hypotheses is sound for validity); counted in ``inline_discharged``
+        if not self.feasible(z3.Not(cond)):
+            self.inline_discharged = getattr(self, "inline_discharged", 0) + 1
+            return
         self.obligations.append((name, list(self.pc), cond))
 
     def feasible(self, extra):
@@ -272,6 +289,15 @@ class Engine:
             return True
         if z3.is_false(cond):
             return False
+        if self.nofork:
+            ft = self.feasible(cond)
+            ff = self.feasible(z3.Not(cond))
+            if ft and ff:
+                raise _ForkInPure()
+            if not ft and not ff:
+                raise PathAbort()
+            self.pc.append(cond if ft else z3.Not(cond))  # implied by the linear part of pc
+            return ft
         if self.dpos < len(self.decisions):
             d = self.decisions[self.dpos]
             self.dpos += 1
@@ -771,13 +797,24 @@ class Engine:
             t = self.eval(e.test, env)
             tb = self.to_bool_term(t) if is_sym(t) else None
             if tb is not None and _pure(e.body) and _pure(e.orelse):
-                # scalar conditional expression: encode as ite, do not fork
-                mark = len(self.pc)
-                a = self._try_eval(e.body, env)
-                b = self._try_eval(e.orelse, env)
-                if a is not _FAIL and b is not _FAIL and _scalar(a) and _scalar(b) and len(self.pc) == mark:
+                # scalar conditional expression: encode as ite, do not fork.  Both arms are evaluated in
+                # no-fork mode (only definitional constraints may be added); otherwise roll back and fork.
+                snap = (len(self.pc), dict(self.memo), len(self.obligations))
+                self.nofork += 1
+                ok = False
+                try:
+                    a = self.eval(e.body, env)
+                    b = self.eval(e.orelse, env)
+                    ok = _scalar(a) and _scalar(b)
+                except (_ForkInPure, Unsupported, Raise):
+                    ok = False
+                finally:
+                    self.nofork -= 1
+                if ok:
                     return z3.If(tb, _z(a), _z(b))
-                del self.pc[mark:]
+                del self.pc[snap[0]:]
+                self.memo = snap[1]
+                del self.obligations[snap[2]:]
             return self.eval(e.body if self.truth(t) else e.orelse, env)
         if isinstance(e, ast.NamedExpr):
             v = self.eval(e.value, env)
